@@ -252,13 +252,14 @@ impl PayloadWriter {
             global_labels.iter(),
         );
 
-        // Calculate the minimum payload length, which is the key name, the metric trailer, and the metric type
-        // substring (`|<metric type>`). This is the minimum amount of space we need to write out the metric without
+        // Calculate the minimum payload length, which is the (prefixed) key name, the metric trailer, and the metric
+        // type substring (`|<metric type>`). This is the minimum amount of space we need to write out the metric without
         // including the value itself.
         //
         // If the minimum payload length exceeds the maximum payload length, we can't write the metric at all, so we
         // return an error.
-        let minimum_payload_len = key.name().len() + self.trailer_buf.len() + 2;
+        let prefix_len = prefix.map_or(0, |prefix| prefix.len() + 1);
+        let minimum_payload_len = prefix_len + key.name().len() + self.trailer_buf.len() + 2;
         if minimum_payload_len + 2 > self.max_payload_len {
             // The extra two we add above simulates the smallest possible value string, which would be `:0`.
             return WriteResult::failure(values.len() as u64);
